@@ -866,6 +866,11 @@ class Ctx:
     def note(self, s: str):
         self.notes.append(s)
 
+    def undecided(self, anchor: str, reason: str):
+        """a rule instance whose construct is in a form outside the tables: not a violation, not a pass - the run
+        ends as ANALYSIS-ERROR unless a violation is found elsewhere (then it is listed as ANALYSIS-NOTE)"""
+        self.anchor_errors.append(AnchorError(anchor, reason))
+
     def section(self, fn, *args, **kw):
         """run one independent group of rule instances; a vanished anchor / undecided shape inside it is
         recorded (the run ends as ANALYSIS-ERROR unless a violation is found elsewhere) instead of hiding
